@@ -26,12 +26,26 @@ def load_module(prop: str):
     return importlib.import_module(f"verif.props.{prop.lower()}")
 
 
-def _worker_env(mod) -> dict:
+REPLAY_HASHSEED = None
+
+
+def hashseed_for(mod, idx: int) -> str:
+    """String-hash seed of the worker that runs batch `idx`.  Set iteration order inside naunet depends on it, so the batches of
+    one run use different seeds (deterministic in VERIF_SEED and the batch number; recorded in results and replay files).
+    An explicit PYTHONHASHSEED in the environment, a module-level HASHSEED or a replay file's value win."""
+    if REPLAY_HASHSEED is not None:
+        return str(REPLAY_HASHSEED)
+    if getattr(mod, "HASHSEED", None) is not None:
+        return str(mod.HASHSEED)
+    if os.environ.get("PYTHONHASHSEED"):
+        return os.environ["PYTHONHASHSEED"]
+    return str((common.seed() * 1000003 + idx * 7919) % 4294967295) if idx % 3 else "0"
+
+
+def _worker_env(mod, idx: int = 0) -> dict:
     env = dict(os.environ)
     env["PYTHONPATH"] = f"{ROOT}:{common.DEPS}" + (":" + env["PYTHONPATH"] if env.get("PYTHONPATH") else "")
-    env.setdefault("PYTHONHASHSEED", "0")
-    if getattr(mod, "HASHSEED", None) is not None:
-        env["PYTHONHASHSEED"] = str(mod.HASHSEED)
+    env["PYTHONHASHSEED"] = hashseed_for(mod, idx)
     env["NAUNET_VERIF"] = "1"
     env["PYTHONDONTWRITEBYTECODE"] = "1"
     env["TQDM_DISABLE"] = "1"
@@ -48,7 +62,8 @@ def _run_batch(mod, prop, tier, batch, idx, work: Path):
     cmd = [common.PY, "-m", "verif.worker", prop, str(bfile), str(ofile), str(wdir), tier, str(work / "cache")]
     status, err = "ok", ""
     try:
-        p = subprocess.run(cmd, cwd=str(ROOT), env=_worker_env(mod), capture_output=True, text=True, timeout=timeout)
+        wenv = _worker_env(mod, idx)
+        p = subprocess.run(cmd, cwd=str(ROOT), env=wenv, capture_output=True, text=True, timeout=timeout)
         if p.returncode != 0:
             status, err = "worker_died", (p.stderr or "")[-2000:]
     except subprocess.TimeoutExpired:
@@ -60,6 +75,8 @@ def _run_batch(mod, prop, tier, batch, idx, work: Path):
                 out.append(json.loads(line))
             except Exception:
                 pass
+    for r in out:
+        r["hashseed"] = hashseed_for(mod, idx)
     done = {r.get("case_id") for r in out}
     for c in batch:
         cid = c.get("case_id") or case_id(c)
@@ -110,6 +127,9 @@ def main(argv=None):
                 rp = json.loads(Path(a.replay).read_text())
                 cases = [rp["case"]]
                 tier = rp.get("tier", tier)
+                if rp.get("hashseed") is not None:
+                    global REPLAY_HASHSEED
+                    REPLAY_HASHSEED = rp["hashseed"]
             else:
                 cases = mod.gen_cases(tier)
                 if a.max_cases:
@@ -153,7 +173,7 @@ def main(argv=None):
         seen_cases.add(cid)
         path = REPLAY / prop / f"{cid}.json"
         path.write_text(json.dumps(jsonable({
-            "property": prop, "seed": common.seed(), "tier": tier, "case": by_id.get(cid),
+            "property": prop, "seed": common.seed(), "tier": tier, "hashseed": r.get("hashseed"), "case": by_id.get(cid),
             "violations": [vv for rr, vv in fresh if rr["case_id"] == cid][:20],
         }), indent=1))
         replay_paths.append((path, v))
